@@ -28,5 +28,7 @@ def run(ctx):
     ctx.assumptions += BASE_ASSUMPTIONS[:1] + [
         "for malformed duration text a value or an error are both accepted: the property fixes totality only",
         "chrono's own parser / formatter is bound by conformance only (strings in, no panic out)",
-        "round trips use four-digit years (the default formats carry no sign)",
+        "round trips cover years -9999 .. 12345 (second / millisecond / microsecond units) with the default, dash and slash "
+        "formats; the two formats that do not delimit the year are required to round-trip for four-digit years only (a signed "
+        "or five-digit undelimited year is ambiguous in the calendar library's own grammar)",
     ]
